@@ -533,7 +533,16 @@ func (c *client) receive(r io.Reader) (err error) {
 	// Here we know for sure that we got a response for rpc we asked.
 	// It's our responsibility to deliver the response or error to the
 	// caller as we unregistered the rpc.
-	defer func() { returnResult(rpc, response, err) }()
+	// fatal is set when the response was delivered fine but tells that the
+	// server is going down: the callers get their results, then the
+	// connection is failed like for a server exception of a single call.
+	var fatal error
+	defer func() {
+		returnResult(rpc, response, err)
+		if err == nil {
+			err = fatal
+		}
+	}()
 
 	if header.Exception != nil {
 		err = exceptionToError(header.Exception.GetExceptionClassName(),
@@ -560,6 +569,10 @@ func (c *client) receive(r io.Reader) (err error) {
 			err = RetryableError{fmt.Errorf("failed to decode the response: %s", err)}
 			return
 		}
+	}
+
+	if v, ok := rpc.(interface{ serverError(proto.Message) error }); ok {
+		fatal = v.serverError(response)
 	}
 
 	var cellsLen uint32
